@@ -564,6 +564,10 @@ package meta
 //@   ensures len(old(pb.ShardGroups)) > 0 ==> sSg
 //@   ensures len(old(pb.IndexGroups)) > 0 ==> sIg
 //@   ensures len(old(pb.Subscriptions)) > 0 ==> sSub
+// ... entry by entry: every name of the persisted version memory is restored, whether or not a measurement of that
+// name still exists (the counter of a dropped measurement is what makes its re-creation a fresh one).
+//@   loop 2
+//@     invariant rpi != nil && rpi.MstVersions != nil && (forall n string :: visited(n) ==> (n in rpi.MstVersions))
 //@ prop C15
 //@ func (*MeasurementInfo).unmarshal
 //@   trusted_assigns msti
@@ -617,8 +621,21 @@ package meta
 //@   reads_all data except MigrateEvents(marshalled by Data.Marshal), AdminUserExists(derived from Users on restore), ExpandShardsEnable(configuration, not persisted), opsMapMu(lock), OpsMap(incremental-sync bookkeeping, not part of a snapshot), OpsMapMinIndex(incremental-sync bookkeeping), OpsMapMaxIndex(incremental-sync bookkeeping), OpsToMarshalIndex(incremental-sync bookkeeping), UpdateNodeTmpIndexCommandStart(incremental-sync bookkeeping)
 //@ func DatabaseInfo.marshal
 //@   reads_all di
+//@ prop C15 C13
 //@ func (*RetentionPolicyInfo).Marshal
 //@   reads_all rpi
+// Each collection of a policy is persisted on its own: whether the version memory of measurement names (MstVersions -
+// it outlives the measurements, see DropMeasurement) reaches the snapshot does not depend on any other field, and every
+// name in it is persisted.
+//@   requires rpi != nil
+//@   call .marshal
+//@     frame nothing
+//@   call (*DownSamplePolicyInfo).Marshal
+//@     frame nothing
+//@   ensures [version_memory_persisted_whenever_present] result != nil && (old(rpi.MstVersions) != nil ==> result.MstVersions != nil && (forall n string :: (n in old(rpi.MstVersions)) ==> (n in result.MstVersions)))
+//@   loop 2
+//@     invariant pb != nil && pb.MstVersions != nil && (forall n string :: visited(n) ==> (n in pb.MstVersions))
+//@ prop C15
 //@ func (*MeasurementInfo).marshal
 //@   reads_all msti except originName(derived from Name on restore), tagKeysTotal(derived from the schema on restore), InitNumOfShards(read through GetInitNumOfShards)
 //@ func (*ShardGroupInfo).marshal
